@@ -101,6 +101,10 @@ def run_case(scn):
     viol = list(mon.viol)
     if t.fp_exhausted:
         return {"violations": viol, "obs": {"fp_domain_exhausted": 1, "moments": sum(mon.moments.values())}, "skip": "fp-domain-exhausted"}
+    if scn["N"] == 1 and mon.refined() and record.image_space_degenerate(t.solver, scn["lower"], scn["upper"]):
+        # a trial closer to its neighbour / the box boundary than the spacing of doubles in the box's coordinates (iteration batches ignore
+        # eps): its image may round one ulp outside the box, the bounded refinement then starts from the clipped point - outside the FP domain
+        return {"violations": [], "obs": {"fp_domain_exhausted_in_box_coordinates": 1}, "skip": "fp-domain-exhausted-in-box-coordinates"}
     if t.swallowed or t.aborted:
         viol.append({"mech": "solve-internal-exception", "stdout": t.stdout[-300:]})
     obs = {"runs": 1}
